@@ -203,7 +203,7 @@ def instantiate(spec, router, extra_attrs=None, cls=None):
 # ---------------------------------------------------------------------------------------
 def default_value(kind, e, v):
     if kind == "Switch":
-        return "On" if v.get("default_on") and e["name"] in v["default_on"] else "Off"
+        return "On" if (v.get("default_on") and e["name"] in v["default_on"]) or e.get("default") == "On" else "Off"
     if e["default"] is not None:
         return e["default"]
     return {"Number": 0.0, "Text": "", "Light": "Ok", "BLOB": None}[kind]
